@@ -15,7 +15,15 @@ ALPHA = F(2, 5)
 def _types():
     import numpy as np
     return [("Fraction", F, True), ("int", int, False), ("float", float, False),
-            ("np.float64", np.float64, False), ("np.int64", np.int64, False), ("np.float32", np.float32, False)]
+            ("np.float64", np.float64, False), ("np.int64", np.int64, False), ("np.float32", np.float32, False),
+            # magnitudes: the stream scaled by a power of two (exact in binary floating point); tiny sums are sums, not zeros
+            ("float*2^-70", lambda v: float(v) * 2.0 ** -70, False), ("np.float64*2^55", lambda v: np.float64(v) * 2.0 ** 55, False),
+            ("np.int32", np.int32, False), ("np.int8", np.int8, False)]
+
+
+def _unit(name):
+    return 2.0 ** -70 if name.endswith("2^-70") else 2.0 ** 55 if name.endswith("2^55") else 1.0
+
 
 
 def _replay_state(st):
@@ -53,15 +61,18 @@ def _replay_state(st):
                 if F(n) != want_norm[k]:
                     problems.append(("normalized." + name, str(n), str(want_norm[k])))
             else:
+                g = float(g) / _unit(name)
                 if not (math.isfinite(float(g)) and abs(float(g) - float(want_get[k])) <= tol):
                     problems.append(("get." + name, float(g), float(want_get[k])))
                 # a zero sum in exact arithmetic may be a rounding residue in floats; the property then only
                 # promises "all zeros rather than NaN" for an exactly-zero float sum, so finiteness is required
                 # always and the value only when the float sum is well away from zero
+                if len(want_get) <= 1:
+                    n = float(n) / _unit(name)        # with at most one key the normalised view is the raw value
                 if not math.isfinite(float(n)):
                     problems.append(("normalized_finite." + name, float(n), float(want_norm[k])))
                 else:
-                    tot = sum(float(x) for x in got.values())
+                    tot = sum(float(x) for x in got.values()) / _unit(name)
                     exact_tot = sum(want_get.values())
                     if (exact_tot == 0 and tot == 0) or (exact_tot != 0 and abs(tot) > 1e-6):
                         if abs(float(n) - float(want_norm[k])) > tol * (1 + abs(float(want_norm[k]))) * 100:
